@@ -15,6 +15,18 @@ Require Import PV.Base.Val PV.Model.Sched PV.Proofs.Sched.
 Import ListNotations.
 Open Scope Z_scope.
 
+(* --- the property in one statement ----------------------------------------------------------------------------------
+   Any history of jobs on one context (each job: a lineage over the same registry of persisted datasets, a task function
+   that only returns a value, and its own arbitrary schedule), on either backend, returns job by job exactly what the
+   default in-process executor returns, and leaves the same cache_obj (same entries in the same order).
+   The suffix _partial refers to the granularity of the model (header of this file), not to a hypothesis. *)
+Definition C03_statement : Prop :=
+  forall draw lin parts b js, Forall (job_ok lin) js ->
+  forall driver sh, cache_ok draw lin parts driver ->
+  run_jobs draw b today js parts driver sh = run_jobs_local draw today js parts driver sh.
+Theorem C03_pool_equals_default_executor_partial : C03_statement.
+Proof. exact history_pool_equals_default. Qed.
+
 (* --- one job on a pool ------------------------------------------------------------------------------------------- *)
 (* For every backend and schedule: the job returns, per partition, the task function applied to that partition's own
    data; every entry (id, i) of the driver's cache holds partition i's data of dataset id; the driver's own objects are
@@ -75,6 +87,26 @@ Theorem C03_today_is_local :
   forall r tf, tfun_pure tf = true -> prog_local (task_prog today r tf) = true.
 Proof. exact task_prog_local. Qed.
 
+(* on copies (process pools, pickling serializers) EVERY program -- today's or a variant, whatever the task function
+   writes to -- gives results, cache and stamps that do not depend on the schedule *)
+Theorem C03_copies_schedule_indep_any_program :
+  forall draw parts v r tf driver sh s1 s2,
+  let o1 := run_job draw Copying v r tf parts s1 driver sh in
+  let o2 := run_job draw Copying v r tf parts s2 driver sh in
+  o_results o1 = o_results o2 /\ o_driver o1 = o_driver o2 /\ o_stamped o1 = o_stamped o2 /\
+  o_shared o1 = sh /\ o_shared o2 = sh.
+Proof. exact copies_sched_indep. Qed.
+
+(* --- control flow: whatever the schedule, the lines granted to task tid are, in order, exactly the lines of that
+   task's own uninterrupted run ([ltrace]); no task's path through compute() depends on another task.  (The events
+   are what the correspondence run compares with the traced implementation.) *)
+Theorem C03_events_are_own_traces :
+  forall draw parts b v r tf sched driver sh, prog_local (task_prog v r tf) = true ->
+  forall tid part, nth_error parts tid = Some part ->
+  proj tid (o_events (run_job draw b v r tf parts sched driver sh)) =
+  tag tid (ltrace draw (Z.of_nat tid) part (task_prog v r tf) (t_l (init_task (task_prog v r tf) driver tid part))).
+Proof. exact job_events_own_trace. Qed.
+
 (* --- seeded sampling ------------------------------------------------------------------------------------------------ *)
 Theorem C03_sample_sched_indep :
   forall draw lin parts s fr r tf driver, wf lin r -> tfun_pure tf = true -> cache_ok draw lin parts driver ->
@@ -83,6 +115,13 @@ Theorem C03_sample_sched_indep :
   = map (fun ip => Some (apply_tfun tf (samp draw (s + Z.of_nat (fst ip)) fr (eval draw r (Z.of_nat (fst ip)) (snd ip)))))
         (combine (seq 0 (length parts)) parts).
 Proof. exact sample_job. Qed.
+
+(* --- coalesce: the job result regrouped by the regenerated partition mapping (Gen/Layout.v coalesce_plan) -------- *)
+Theorem C03_coalesce_any_pool :
+  forall draw lin parts r driver n, wf lin r -> cache_ok draw lin parts driver -> forall b sched sh,
+  regroup n (got (o_results (run_job draw b today r FCollect parts sched driver sh))) =
+  regroup n (map (fun ip => eval draw r (Z.of_nat (fst ip)) (snd ip)) (combine (seq 0 (length parts)) parts)).
+Proof. exact coalesce_job. Qed.
 
 (* --- entries merged back from workers carry a time stamp (TimedCacheManager.join), for any program and schedule ---- *)
 Theorem C03_joined_entries_are_stamped :
@@ -142,7 +181,8 @@ Example ex_run :
   let o2 := run_job draw_by_seed Copying today ex_rdd FCollect parts [1; 1; 0]%nat (o_driver o1) shared0 in
   o_results o1 = spec_results draw_by_seed ex_rdd FCollect parts /\ o_results o2 = o_results o1 /\
   c_keys (o_driver o1) = [(2, 0); (4, 0); (2, 1); (4, 1); (2, 2); (4, 2)] /\ o_driver o2 = o_driver o1 /\
-  length (o_events o1) = 60%nat /\ length (o_events o2) = 18%nat.
+  length (o_events o1) = 60%nat /\ length (o_events o2) = 18%nat /\
+  proj 1 (o_events o2) = tag 1 [1; 2; 3; 7; 8; 9].
 Proof. vm_compute. repeat split. Qed.
 (* sampling with replacement: pysparkling_poisson on the stream 0.5, 0.5, ... with lam = 1 (exp(-1) ~ 0.3679): one copy of
    every element (0.5 > e^-1 >= 0.25), two draws per element; a lam of 0 draws nothing *)
